@@ -189,7 +189,6 @@ where
     ///
     /// Panics if `rng` is None, since Hyrax requires randomness in order to
     /// commit to a polynomial
-    #[allow(unused_variables)]
     fn commit<'a>(
         ck: &Self::CommitterKey,
         polynomials: impl IntoIterator<Item = &'a LabeledPolynomial<G::ScalarField, P>>,
@@ -207,7 +206,6 @@ where
         let mut coms = Vec::new();
         let mut states = Vec::new();
 
-        #[cfg(not(feature = "parallel"))]
         let rng_inner = rng.expect("Committing to polynomials requires a random generator");
 
         for l_poly in polynomials {
@@ -230,16 +228,16 @@ where
             let m = flat_to_matrix_column_major(&poly.to_evaluations(), dim, dim);
 
             // Commiting to the matrix with one multi-commitment per row
-            let (row_coms, com_rands): (Vec<_>, Vec<_>) = cfg_iter!(m)
-                .map(|row| {
-                    #[cfg(not(feature = "parallel"))]
-                    let r = G::ScalarField::rand(rng_inner);
-                    #[cfg(feature = "parallel")]
-                    let r = G::ScalarField::rand(&mut rand::thread_rng());
-                    let c = (Self::pedersen_commit(&ck.com_key, row) + ck.h * r).into();
-                    (c, r)
-                })
-                .unzip();
+            // The row randomness comes from the caller's generator (drawn in row
+            // order before the possibly parallel loop)
+            let com_rands: Vec<G::ScalarField> = m
+                .iter()
+                .map(|_| G::ScalarField::rand(rng_inner))
+                .collect();
+            let row_coms: Vec<_> = cfg_iter!(m)
+                .zip(cfg_iter!(com_rands))
+                .map(|(row, r)| (Self::pedersen_commit(&ck.com_key, row) + ck.h * r).into())
+                .collect();
 
             let com = HyraxCommitment { row_coms };
             let l_comm = LabeledCommitment::new(label.to_string(), com, Some(1));
